@@ -27,6 +27,9 @@ type UnitResult struct {
 	Panic    string // Go panic signature (engine.PanicSig)
 	PanicMsg string
 	Stack    string
+	// OnlyInBatch: the unit failed at run time only when the preceding units of its batch had run before it in
+	// the same program (alone it runs cleanly): state leaked between independent units inside the VM.
+	OnlyInBatch bool
 }
 
 // Failed reports whether the unit could not be observed normally.
@@ -39,6 +42,8 @@ type BatchOpts struct {
 	Prelude string
 	// StackSlots, when > 0, sets vm.INIT_VALUE_STACK_SIZE (in slots) for the executions of this batch.
 	StackSlots int
+	// Separate runs every unit as a program of its own (e.g. when the top-level frame must stay small).
+	Separate bool
 }
 
 // RunBatch compiles and runs all units as one program: prelude, all definitions, then for each unit a
@@ -46,6 +51,12 @@ type BatchOpts struct {
 // the batch is bisected down to single units.
 func RunBatch(units []Unit, o BatchOpts) []UnitResult {
 	res := make([]UnitResult, len(units))
+	if o.Separate {
+		for i := range units {
+			runRange(units, i, i+1, res, o)
+		}
+		return res
+	}
 	runRange(units, 0, len(units), res, o)
 	return res
 }
@@ -65,21 +76,42 @@ func runRange(units []Unit, lo, hi int, res []UnitResult, o BatchOpts) {
 	}
 	r := RunSource(b.String(), o.StackSlots)
 	clean := !r.Rejected && r.Panic == "" && r.Err == ""
+	setFailure := func(u *UnitResult) {
+		u.Rejected, u.Diags = r.Rejected, r.Diags
+		u.Err, u.ErrClass = r.Err, r.ErrClass
+		u.Panic, u.PanicMsg, u.Stack = r.PanicSig, r.Panic, r.Stack
+		if r.Panic != "" && u.Panic == "" {
+			u.Panic = r.Panic
+		}
+	}
 	if clean || hi-lo == 1 {
-		outs := splitUnits(r.Stdout, lo, hi)
+		outs, _ := splitUnits(r.Stdout, lo, hi)
 		for i := lo; i < hi; i++ {
 			res[i].Out = outs[i-lo]
 		}
 		if !clean {
-			u := &res[lo]
-			u.Rejected, u.Diags = r.Rejected, r.Diags
-			u.Err, u.ErrClass = r.Err, r.ErrClass
-			u.Panic, u.PanicMsg, u.Stack = r.PanicSig, r.Panic, r.Stack
-			if r.Panic != "" && u.Panic == "" {
-				u.Panic = r.Panic
-			}
+			setFailure(&res[lo])
 		}
 		return
+	}
+	if !r.Rejected {
+		// a run-time failure: the units run in order, so the unit whose marker was printed last is the one
+		// that failed; the units before it completed and their output is known
+		outs, last := splitUnits(r.Stdout, lo, hi)
+		if last >= lo {
+			for i := lo; i < last; i++ {
+				res[i].Out = outs[i-lo]
+			}
+			runRange(units, last, last+1, res, o) // confirm it alone
+			if !res[last].Failed() {
+				// it fails only after the earlier units ran in the same program
+				res[last].Out = outs[last-lo]
+				setFailure(&res[last])
+				res[last].OnlyInBatch = true
+			}
+			runRange(units, last+1, hi, res, o)
+			return
+		}
 	}
 	mid := (lo + hi) / 2
 	runRange(units, lo, mid, res, o)
@@ -100,14 +132,17 @@ func RunSource(src string, stackSlots int) elkrun.Result {
 	return elkrun.Exec(fn, nil)
 }
 
-func splitUnits(out string, lo, hi int) []string {
-	outs := make([]string, hi-lo)
+// splitUnits cuts the output at the unit markers; last is the index of the last unit that started (-1: none).
+func splitUnits(out string, lo, hi int) (outs []string, last int) {
+	outs = make([]string, hi-lo)
+	last = -1
 	cur := -1
 	for _, line := range strings.SplitAfter(out, "\n") {
 		if strings.HasPrefix(line, unitMarker) {
 			var n int
 			if _, err := fmt.Sscanf(strings.TrimSpace(line[len(unitMarker):]), "%d", &n); err == nil && n >= lo && n < hi {
 				cur = n - lo
+				last = n
 				continue
 			}
 		}
@@ -115,7 +150,7 @@ func splitUnits(out string, lo, hi int) []string {
 			outs[cur] += line
 		}
 	}
-	return outs
+	return outs, last
 }
 
 // RenameDef returns a shallow copy of the definition under another name (batches need unique names).
